@@ -817,6 +817,13 @@ def judge_c08(ops, impl):
                     st = lambda x: '200' if x == '-' else x     # an unset status is an implicit 200
                     if st(g[1].get('status')) != st(f.get('status')) or gl != hl:
                         bad.append((i, 'HEAD status/headers %s %r differ from GET %s %r' % (f.get('status'), hl, g[1].get('status'), gl)))
+                    # ... and the headers AS SENT (snapshot when the header was written), when both wrote one
+                    gs, hs = g[1].get('snap', '-'), f.get('snap', '-')
+                    if gs not in ('-', None) and hs not in ('-', None):
+                        gsd = dec_hdr(gs); hsd = dec_hdr(hs)
+                        gsd.pop('Content-Length', None); hsd.pop('Content-Length', None)
+                        if gsd != hsd:
+                            bad.append((i, 'headers sent with the HEAD answer %r differ from those sent with GET %r' % (hsd, gsd)))
                     hid = int(f['base'][5:])
                     acts = scripts.get(hid, '%-')
                     if acts != '%-' and 'w:' not in acts and 'content-length' not in acts.lower():
@@ -1042,8 +1049,12 @@ def judge_cors(ops, impl, part):
         hdrs = {k.decode('latin-1'): v.decode('latin-1') for k, v in decM(toks[5])}
         if any(ord(c) >= 0x80 for c in hdrs.get('Access-Control-Request-Headers', '')) or any(any(b >= 0x80 for b in h) for h in cfg.get('allow', []) if isinstance(h, (bytes, bytearray))):
             continue      # strings.EqualFold / TrimSpace are Unicode-aware; this judge (like the model) reads ASCII
-        got = {k: v[0] for k, v in dec_hdr(f.get('hdr', '%-')).items()}
-        vary = dec_hdr(f.get('hdr', '%-')).get('Vary', [])
+        hdr_all = dec_hdr(f.get('hdr', '%-'))
+        got = {k: v[0] for k, v in hdr_all.items()}
+        vary = hdr_all.get('Vary', [])
+        for k in CORS_KEYS:
+            if len(hdr_all.get(k, [])) > 1:
+                bad.append((i, '%s is sent %d times: %r' % (k, len(hdr_all[k]), hdr_all[k])))
         base = f['base']
         served = base.startswith('user:') or base in ('options', 'trace')
         node_methods = dec_methods(f['methods'])
